@@ -368,6 +368,71 @@ func longOctalRewrite(pattern string) (string, bool) {
 	return sb.String(), changed
 }
 
+// backrefOctalRewrite models defect BR: a decimal escape of two or more digits
+// whose value is a legal back-reference (<= number of capturing groups) is read
+// as an octal escape (\10 -> \x08) instead of being rejected as unsupported.
+func backrefOctalRewrite(pattern string) (string, bool) {
+	ncap := 0
+	inClass := false
+	for i := 0; i < len(pattern); i++ {
+		switch c := pattern[i]; {
+		case c == '\\':
+			i++
+		case inClass:
+			inClass = c != ']'
+		case c == '[':
+			inClass = true
+		case c == '(' && !(i+1 < len(pattern) && pattern[i+1] == '?'):
+			ncap++
+		}
+	}
+	var sb strings.Builder
+	changed := false
+	for i := 0; i < len(pattern); i++ {
+		c := pattern[i]
+		if c != '\\' || i+1 >= len(pattern) {
+			sb.WriteByte(c)
+			continue
+		}
+		j := i + 1
+		dec := 0
+		for j < len(pattern) && pattern[j] >= '0' && pattern[j] <= '9' {
+			dec = dec*10 + int(pattern[j]-'0')
+			j++
+		}
+		if j-(i+1) >= 2 && pattern[i+1] >= '1' && pattern[i+1] <= '7' && pattern[i+2] <= '7' && dec <= ncap {
+			// otto: up to three octal digits, value <= 0377
+			k, v := i+1, 0
+			for k < j && k < i+4 && pattern[k] <= '7' && v*8+int(pattern[k]-'0') <= 0377 {
+				v = v*8 + int(pattern[k]-'0')
+				k++
+			}
+			fmt.Fprintf(&sb, "\\x%02x", v)
+			sb.WriteString(pattern[k:j])
+			changed = true
+			i = j - 1
+			continue
+		}
+		sb.WriteByte(c)
+		sb.WriteByte(pattern[i+1])
+		i++
+	}
+	return sb.String(), changed
+}
+
+// hasNonASCIIIdentityEscape: a backslash followed by a non-ASCII character (defect IE).
+func hasNonASCIIIdentityEscape(pattern string) bool {
+	for i := 0; i+1 < len(pattern); i++ {
+		if pattern[i] == '\\' {
+			if pattern[i+1] >= 0x80 {
+				return true
+			}
+			i++
+		}
+	}
+	return false
+}
+
 func hasHugeRepeat(n *regex.Node) bool {
 	if n.Kind == regex.KQuant && (n.Min > 1000 || n.Max > 1000) {
 		return true
@@ -383,11 +448,11 @@ func hasHugeRepeat(n *regex.Node) bool {
 var rewrites = []struct {
 	name string
 	f    func(string) (string, bool)
-}{{"A", emptyClassRewrite}, {"C", emptyFlagGroupRewrite}, {"PX", posixClassRewrite}, {"OC", longOctalRewrite}, {"B", bareControlRewrite}}
+}{{"A", emptyClassRewrite}, {"C", emptyFlagGroupRewrite}, {"PX", posixClassRewrite}, {"OC", longOctalRewrite}, {"BR", backrefOctalRewrite}, {"B", bareControlRewrite}}
 
 // Deviation names, in attribution priority (repairable defects first, so that a
 // regression of a repaired defect is never hidden behind an architectural one).
-var devPriority = []string{"Q", "A", "C", "PX", "OC", "B", "RC", "LD", "LA", "CF", "S", "R"}
+var devPriority = []string{"Q", "A", "C", "PX", "OC", "BR", "IE", "B", "RC", "LD", "LA", "CF", "S", "R"}
 
 // explainCase returns the set of deviations that together reproduce the
 // observation exactly, or ok=false when no combination does. An empty set with
@@ -414,6 +479,10 @@ func explainCase(pattern, flags string, nsubs subjSpec, rejected bool, observed 
 		// RE2 refuses repeat counts above 1000
 		if pat.Root != nil && hasHugeRepeat(pat.Root) {
 			return []string{"RC"}, true
+		}
+		// re2 refuses a backslash before a non-ASCII character
+		if hasNonASCIIIdentityEscape(pattern) {
+			return []string{"IE"}, true
 		}
 	case "accepted-invalid":
 		if pat.Class == regex.Malformed {
@@ -500,6 +569,8 @@ func init() {
 	// is also in that class).
 	register("c10-posix-class", func(m *engine.Mismatch) bool { return firstDev(m) == "PX" })
 	register("c10-long-octal-escape", func(m *engine.Mismatch) bool { return firstDev(m) == "OC" })
+	register("c10-backreference-as-octal", func(m *engine.Mismatch) bool { return firstDev(m) == "BR" })
+	register("c10-non-ascii-identity-escape", func(m *engine.Mismatch) bool { return firstDev(m) == "IE" })
 	register("c10-repeat-count-limit", func(m *engine.Mismatch) bool { return firstDev(m) == "RC" })
 	register("c10-dot-line-terminators", func(m *engine.Mismatch) bool { return firstDev(m) == "LD" })
 	register("c10-multiline-line-terminators", func(m *engine.Mismatch) bool { return firstDev(m) == "LA" })
